@@ -280,7 +280,16 @@ fn build_op(db: &mut SparqlDatabase, t: &str, first: bool) -> Option<()> {
 /// Ok(db) | Err(true) = malformed request | Err(false) = a call panicked
 fn build(toks: &[&str]) -> Result<SparqlDatabase, bool> {
     let mut db = SparqlDatabase::new();
+    // one database in three has a query history: after half of its operations two constant-free SELECTs run (whatever a
+    // query caches - statistics, graph lists - is stale when the remaining operations have been applied)
+    let warm = toks.len() >= 2 && crate::proto::fnv(&toks.join(" ")) % 3 == 0;
     for (i, t) in toks.iter().enumerate() {
+        if warm && i == toks.len() / 2 {
+            let _ = catch_unwind(AssertUnwindSafe(|| {
+                let _ = kolibrie::execute_query::execute_sparql_query("SELECT * WHERE { ?s ?p ?o }", &mut db);
+                let _ = kolibrie::execute_query::execute_sparql_query("SELECT ?g ?s WHERE { GRAPH ?g { ?s ?p ?o } }", &mut db);
+            }));
+        }
         let r = catch_unwind(AssertUnwindSafe(|| build_op(&mut db, t, i == 0)));
         match r {
             Ok(Some(())) => {}
